@@ -1374,6 +1374,68 @@ M('C04', 'ecdh-strict-flag', FL, C04_ECD, """        padder = PKCS7(64).unpadder
             data += padder.finalize()
         return data
 """, 'C04.7')
+# ---- follow-up 2: legacy SKEData prefix check (C04.2, second instance), passphrase -> key path (C04.9), warn-instead-of-raise, startswith compares
+C04_SED = """        iv = bytes(pt_prefix[:block_size_bytes])
+        del pt_prefix[:block_size_bytes]
+
+        ivl2 = bytes(pt_prefix[:2])
+
+        if not constant_time.bytes_eq(iv[-2:], ivl2):
+            raise PGPDecryptionError("Decryption failed")
+
+        pt = _decrypt(bytes(self.ct[block_size_bytes + 2:]), bytes(key), alg, iv=iv_resync)
+
+        return pt
+"""
+C04_PASS = """        if isinstance(passphrase, bytes):
+            hpass = passphrase
+        else:
+            hpass = passphrase.encode('utf-8')
+"""
+T('C04', 'twin-sed-offsets', PK, C04_SED, """        if pt_prefix[block_size_bytes - 2:block_size_bytes] != pt_prefix[block_size_bytes:block_size_bytes + 2]:
+            raise PGPDecryptionError("Decryption failed")
+
+        return _decrypt(bytes(self.ct[block_size_bytes + 2:]), bytes(key), alg, iv_resync)
+""")
+T('C04', 'twin-derive-key-str-first', FL, C04_PASS, """        if isinstance(passphrase, str):
+            hpass = passphrase.encode('utf-8', 'strict')
+        else:
+            hpass = passphrase
+""")
+T('C04', 'twin-passphrase-layers-spelling', PK, "    def unprotect(self, passphrase):\n        self.keymaterial.decrypt_keyblob(passphrase)", "    def unprotect(self, passphrase):\n        km = self.keymaterial\n        km.decrypt_keyblob(passphrase=passphrase)",
+  more=[(FL, "        kb = super(RSAPriv, self).decrypt_keyblob(passphrase)", "        kb = PrivKey.decrypt_keyblob(self, passphrase)")])
+M('C04', 'sed-prefix-check-dropped', PK, C04_SED, """        del pt_prefix
+
+        pt = _decrypt(bytes(self.ct[block_size_bytes + 2:]), bytes(key), alg, iv=iv_resync)
+
+        return pt
+""", 'C04.2')
+M('C04', 'sed-prefix-check-warns', PK, "        if not constant_time.bytes_eq(iv[-2:], ivl2):\n            raise PGPDecryptionError(\"Decryption failed\")\n\n        pt = _decrypt(bytes(self.ct[block_size_bytes + 2:])", "        if not constant_time.bytes_eq(iv[-2:], ivl2):\n            warnings.warn(\"Decryption may have failed\")\n\n        pt = _decrypt(bytes(self.ct[block_size_bytes + 2:])", 'C04.2')
+M('C04', 'sed-prefix-check-after-decrypt-kept', PK, C04_SED, """        iv = bytes(pt_prefix[:block_size_bytes])
+        del pt_prefix[:block_size_bytes]
+
+        ivl2 = bytes(pt_prefix[:2])
+
+        self.pt = _decrypt(bytes(self.ct[block_size_bytes + 2:]), bytes(key), alg, iv=iv_resync)
+
+        if not constant_time.bytes_eq(iv[-2:], ivl2):
+            raise PGPDecryptionError("Decryption failed")
+
+        return self.pt
+""", 'C04.2')
+M('C04', 'sed-prefix-one-octet', PK, "        ivl2 = bytes(pt_prefix[:2])\n\n        if not constant_time.bytes_eq(iv[-2:], ivl2):\n            raise PGPDecryptionError(\"Decryption failed\")\n\n        pt = _decrypt", "        ivl2 = bytes(pt_prefix[:1])\n\n        if not constant_time.bytes_eq(iv[-2:-1], ivl2):\n            raise PGPDecryptionError(\"Decryption failed\")\n\n        pt = _decrypt", 'C04.2')
+M('C04', 'derive-key-encode-ignore', FL, "            hpass = passphrase.encode('utf-8')\n\n        # salted, iterated S2K", "            hpass = passphrase.encode('utf-8', 'ignore')\n\n        # salted, iterated S2K", 'C04.9')
+M('C04', 'derive-key-latin1-replace', FL, "            hpass = passphrase.encode('utf-8')\n\n        # salted, iterated S2K", "            hpass = passphrase.encode('latin-1', errors='replace')\n\n        # salted, iterated S2K", 'C04.9')
+M('C04', 'derive-key-strip', FL, "            hpass = passphrase.encode('utf-8')\n\n        # salted, iterated S2K", "            hpass = passphrase.strip().encode('utf-8')\n\n        # salted, iterated S2K", 'C04.9')
+M('C04', 'derive-key-nfkc', FL, "            hpass = passphrase.encode('utf-8')\n\n        # salted, iterated S2K", "            import unicodedata\n            hpass = unicodedata.normalize('NFKC', passphrase).encode('utf-8')\n\n        # salted, iterated S2K", 'C04.9')
+M('C04', 'skesk-passphrase-stripped', PK, "        sk = self.s2k.derive_key(passphrase)\n        del passphrase\n\n        # if there is no ciphertext", "        sk = self.s2k.derive_key(passphrase.strip())\n        del passphrase\n\n        # if there is no ciphertext", 'C04.9')
+M('C04', 'unprotect-passphrase-coerced', PK, "    def unprotect(self, passphrase):\n        self.keymaterial.decrypt_keyblob(passphrase)", "    def unprotect(self, passphrase):\n        self.keymaterial.decrypt_keyblob(str(passphrase))", 'C04.9')
+M('C04', 'rsa-keyblob-passphrase-truncated', FL, "        kb = super(RSAPriv, self).decrypt_keyblob(passphrase)", "        kb = super(RSAPriv, self).decrypt_keyblob(passphrase[:64])", 'C04.9')
+M('C04', 'seipd-mdc-only-if-header', PK, "        if not constant_time.bytes_eq(bytes(pt[-22:]), _expected_mdcbytes):\n            raise PGPDecryptionError(\"Decryption failed\")  # pragma: no cover\n", "        if bytes(pt[-22:-20]) == b'\\xd3\\x14' and not constant_time.bytes_eq(bytes(pt[-22:]), _expected_mdcbytes):\n            raise PGPDecryptionError(\"Decryption failed\")  # pragma: no cover\n", 'C04.1')
+M('C04', 'ivcheck-warns', PK, "        if not constant_time.bytes_eq(iv[-2:], ivl2):\n            raise PGPDecryptionError(\"Decryption failed\")  # pragma: no cover\n\n        return pt", "        if not constant_time.bytes_eq(iv[-2:], ivl2):\n            warnings.warn(\"Decryption may have failed\")  # pragma: no cover\n\n        return pt", 'C04.2')
+M('C04', 'keyblob-sha1-warns', FL, "            # of the key material block\n            raise PGPDecryptionError(\"Passphrase was incorrect!\")\n\n        if self.s2k.usage == 255", "            # of the key material block\n            warnings.warn(\"Passphrase may be incorrect!\")\n\n        if self.s2k.usage == 255", 'C04.4')
+M('C04', 'seipd-mdc-startswith', PK, "        if not constant_time.bytes_eq(bytes(pt[-22:]), _expected_mdcbytes):\n            raise", "        if not _expected_mdcbytes.startswith(bytes(pt[-22:-1])):\n            raise", 'C04.1')
+M('C04', 'keyblob-sha1-startswith', FL, "        if self.s2k.usage == 254 and not pt[-20:] == hashlib.new('sha1', pt[:-20]).digest():", "        if self.s2k.usage == 254 and not hashlib.new('sha1', pt[:-20]).digest().startswith(bytes(pt[-20:-16])):", 'C04.4')
 
 # =============================================================================================== C03
 M('C03', 'checksum-65535', PK, "        m += self.int_to_bytes(sum(bytearray(symkey)) % 65536, 2)", "        m += self.int_to_bytes(sum(bytearray(symkey)) % 65535, 2)", 'C03.1')
@@ -3546,6 +3608,19 @@ M('C09', 'reader-other-zone', PK, "    def created_int(self, val):\n        self
 M('C09', 'reader-seconds-plus-offset', SS, "    def created_int(self, val):\n        self.created = datetime.fromtimestamp(val, timezone.utc)", "    def created_int(self, val):\n        self.created = datetime.fromtimestamp(val + time.timezone, timezone.utc)", 'C09.5')
 T('C09', 'twin-reader-aware-utc-astimezone', SS, "    def created_int(self, val):\n        self.created = datetime.fromtimestamp(val, timezone.utc)", "    def created_int(self, val):\n        self.created = datetime.fromtimestamp(int(val), tz=timezone.utc).astimezone(timezone.utc)")
 
+# --- C09 third round: state kept on the int-subclass instance created in MPI.__new__
+_MPI_RET = "        return super(MPI, cls).__new__(cls, mpi)\n\n    def byte_length(self):\n        return ((self.bit_length() + 7) // 8)\n"
+M('C09', 'mpi-remembers-wire-width', PT, _MPI_RET,
+  "        self = super(MPI, cls).__new__(cls, mpi)\n        self._blen = fl if isinstance(num, bytearray) else None\n        return self\n\n    def byte_length(self):\n        if self._blen is not None:\n            return self._blen\n        return ((self.bit_length() + 7) // 8)\n", 'C09.3')
+M('C09', 'mpi-remembers-wire-bits', PT, "        return super(MPI, cls).__new__(cls, mpi)\n",
+  "        self = super(MPI, cls).__new__(cls, mpi)\n        self.__dict__['_bits'] = MPIs.bytes_to_int(b'\\x00') if not isinstance(num, bytearray) else 8 * fl\n        return self\n", 'C09.3',
+  more=[(PT, "        return MPIs.int_to_bytes(self.bit_length(), 2) + MPIs.int_to_bytes(self, self.byte_length())", "        return MPIs.int_to_bytes(self._bits or self.bit_length(), 2) + MPIs.int_to_bytes(self, self.byte_length())")])
+T('C09', 'twin-mpi-unused-attribute', PT, "        return super(MPI, cls).__new__(cls, mpi)\n",
+  "        self = super(MPI, cls).__new__(cls, mpi)\n        self._from_wire = isinstance(num, bytearray)\n        return self\n")
+T('C09', 'twin-mpi-bytelen-cached', PT, "    def byte_length(self):\n        return ((self.bit_length() + 7) // 8)\n",
+  "    def byte_length(self):\n        cached = getattr(self, '_nbytes', None)\n        if cached is None:\n            cached = (self.bit_length() + 7) // 8\n            setattr(self, '_nbytes', cached)\n        return cached\n")
+M('C09', 'malformed-length-fstring-special', TY, "                if 192 > fo:\n                    return (self.bytes_to_int(a[offset:offset + 1]), 1, False)", "                if 192 > fo:\n                    return (int(f'{fo:03d}'[-2:]) if fo > 99 else fo, 1, False)", 'C09.1')
+
 # =============================================================================================== C20
 M('C20', 'ops-loop-forward', PGP, "            for sig in reversed(self._signatures):\n                ops = sig.make_onepass()", "            for sig in self._signatures:\n                ops = sig.make_onepass()", 'C20.2')
 M('C20', 'trailing-sigs-reversed', PGP, "                yield self._mdc\n\n            for sig in self._signatures:\n                yield sig", "                yield self._mdc\n\n            for sig in reversed(self._signatures):\n                yield sig", 'C20.2')
@@ -4345,6 +4420,54 @@ M('C02', 'key-hashdata-negative-slice-degenerates', PGP, "        return self._u
 T('C05', 'twin-parse-split-into-two-helpers', FL, "    def parse(self, packet):\n        hl = self.bytes_to_int(packet[:2])\n        hashed_raw = packet[:2 + hl]", "    def parse(self, packet):\n        self._parse_hashed(packet)\n        self._parse_unhashed(packet)\n\n    def _parse_hashed(self, packet):\n        hl = self.bytes_to_int(packet[:2])\n        hashed_raw = packet[:2 + hl]",
   more=[(FL, "        self._hashed_raw = hashed_raw\n\n        uhl = self.bytes_to_int(packet[:2])", "        self._hashed_raw = hashed_raw\n\n    def _parse_unhashed(self, packet):\n        uhl = self.bytes_to_int(packet[:2])")])
 
+# =============================================================================================== C18.10 (wave-3 seeded shapes) and further kinds
+T('C18', 'twin-ecpoint-width-negated-floor', FL, "        ct.bytelen = (bitlen + 7) // 8", "        ct.bytelen = -(-bitlen // 8)")
+T('C18', 'twin-mpi-width-shift', TYP, "        return ((self.bit_length() + 7) // 8)", "        nbits = self.bit_length()\n        return (nbits + 7) >> 3")
+T('C18', 'twin-ecpoint-writer-temporaries', FL, "            b += MPIs.int_to_bytes(self.x, self.bytelen)\n            b += MPIs.int_to_bytes(self.y, self.bytelen)", "            width = self.bytelen\n            for coordinate in (self.x, self.y):\n                b += MPIs.int_to_bytes(coordinate, width)")
+T('C18', 'twin-own-point-curve-temp-keyword', FL, "        self.p = ECPoint.from_values(self.oid.key_size, ECPointFormat.Standard, MPI(pubn.x), MPI(pubn.y))", "        curve = self.oid\n        point = ECPoint.from_values(bitlen=curve.key_size, pform=ECPointFormat.Standard, x=MPI(pubn.x), y=MPI(pubn.y))\n        self.p = point")
+M('C18', 'ecpoint-width-floor', FL, "        ct.bytelen = (bitlen + 7) // 8", "        ct.bytelen = bitlen // 8", 'C18.10')
+M('C18', 'ecpoint-width-floor-plus-one', FL, "        ct.bytelen = (bitlen + 7) // 8", "        ct.bytelen = bitlen // 8 + 1", 'C18.10')
+M('C18', 'mpi-width-floor-plus-one', TYP, "        return ((self.bit_length() + 7) // 8)", "        return (self.bit_length() // 8) + 1", 'C18.10')
+M('C18', 'ecpoint-length-off-by-one', FL, "            return 2 * self.bytelen + 3", "            return 2 * self.bytelen + 2", 'C18.10')
+M('C18', 'ecpoint-native-length-off-by-one', FL, "            return len(self.x) + 3", "            return len(self.x) + 2", 'C18.10')
+M('C18', 'ecpoint-writer-minimal-width', FL, "            b += MPIs.int_to_bytes(self.x, self.bytelen)\n", "            b += MPIs.int_to_bytes(self.x)\n", 'C18.10')
+M('C18', 'ecpoint-reader-splits-unevenly', FL, "            self.x = MPI(MPIs.bytes_to_int(xy[:self.bytelen]))\n            self.y = MPI(MPIs.bytes_to_int(xy[self.bytelen:]))", "            self.x = MPI(MPIs.bytes_to_int(xy[:self.bytelen - 1]))\n            self.y = MPI(MPIs.bytes_to_int(xy[self.bytelen - 1:]))", 'C18.10')
+M('C18', 'own-point-width-of-p256', FL, "        self.p = ECPoint.from_values(self.oid.key_size, ECPointFormat.Standard, MPI(pubn.x), MPI(pubn.y))", "        self.p = ECPoint.from_values(EllipticCurveOID.NIST_P256.key_size, ECPointFormat.Standard, MPI(pubn.x), MPI(pubn.y))", 'C18.10')
+M('C18', 'own-point-width-from-coordinate', FL, "        self.p = ECPoint.from_values(self.oid.key_size, ECPointFormat.Standard, MPI(pubn.x), MPI(pubn.y))", "        self.p = ECPoint.from_values(pubn.x.bit_length(), ECPointFormat.Standard, MPI(pubn.x), MPI(pubn.y))", 'C18.10')
+M('C18', 'packet-copy-created-relabelled-utc', PK, "        pk.created = self.created\n        pk.pkalg = self.pkalg\n        pk.keymaterial = copy.copy(self.keymaterial)", "        pk.created = self.created.replace(tzinfo=timezone.utc)\n        pk.pkalg = self.pkalg\n        pk.keymaterial = copy.copy(self.keymaterial)", 'C18.8')
+M('C18', 'revoke-issuer-id-of-target-owner', PGP, "            raise TypeError\n\n        sig = PGPSignature.new(sig_type, self.key_algorithm, hash_algo, self.fingerprint.keyid, created=prefs.pop('created', None))",
+  "            raise TypeError\n\n        owner = self\n        if isinstance(target, PGPKey):\n            owner = target if target.is_primary else target.parent\n\n        sig = PGPSignature.new(sig_type, self.key_algorithm, hash_algo, owner.fingerprint.keyid, created=prefs.pop('created', None))", 'C18.7')
+M('C18', 'certify-issuer-algorithm-of-subject', PGP, "        sig = PGPSignature.new(sig_type, self.key_algorithm, hash_algo, self.fingerprint.keyid, created=prefs.pop('created', None))\n\n        # signature options that only make sense in certifications",
+  "        signer_alg = subject.key_algorithm if isinstance(subject, PGPKey) else self.key_algorithm\n        sig = PGPSignature.new(sig_type, signer_alg, hash_algo, self.fingerprint.keyid, created=prefs.pop('created', None))\n\n        # signature options that only make sense in certifications", 'C18.7')
+# ---- third held-out wave (C14-w3mut1, C20-w3mut1/2/3) and further kinds
+RESORT = "            self._signatures.insort(other)\n            if self.parent is not None and self in self.parent._uids:\n                self.parent._uids.resort(self)\n"
+M('C14', 'resort-only-for-certifications', PGP, RESORT, "            self._signatures.insort(other)\n            if self.parent is not None and other.signer == self.parent.fingerprint.keyid \\\n                    and other.type in {SignatureType.Generic_Cert, SignatureType.Persona_Cert, SignatureType.Casual_Cert, SignatureType.Positive_Cert} \\\n                    and self in self.parent._uids:\n                self.parent._uids.resort(self)\n", 'C14.5')
+M('C14', 'resort-skipped-for-revocations', PGP, RESORT, "            self._signatures.insort(other)\n            if self.parent is not None and self in self.parent._uids and other.type != SignatureType.CertRevocation:\n                self.parent._uids.resort(self)\n", 'C14.5')
+M('C14', 'resort-only-when-newer', PGP, RESORT, "            newest = self.selfsig\n            self._signatures.insort(other)\n            if self.parent is not None and self in self.parent._uids and (newest is None or other.created > newest.created):\n                self.parent._uids.resort(self)\n", 'C14.5')
+M('C14', 'resort-dropped', PGP, RESORT, "            self._signatures.insort(other)\n", 'C14.5')
+M('C14', 'resort-before-insert', PGP, RESORT, "            if self.parent is not None and self in self.parent._uids:\n                self.parent._uids.resort(self)\n            self._signatures.insort(other)\n", 'C14.5')
+M('C14', 'resort-only-primary-uid', PGP, RESORT, "            self._signatures.insort(other)\n            if self.parent is not None and self in self.parent._uids and other.signer == self.parent.fingerprint.keyid and 'PrimaryUserID' in other._signature.subpackets:\n                self.parent._uids.resort(self)\n", 'C14.5')
+T('C14', 'twin-resort-guard-clauses', PGP, RESORT, "            self._signatures.insort(other)\n            key = self.parent\n            if key is None:\n                return self\n            if self in key._uids:\n                key._uids.resort(self)\n")
+T('C14', 'twin-resort-own-key-only', PGP, RESORT, "            self._signatures.insort(other)\n            if self.parent is not None and self in self.parent._uids:\n                if other.signer_fingerprint == self.parent.fingerprint or other.signer == self.parent.fingerprint.keyid:\n                    self.parent._uids.resort(self)\n                else:\n                    self.parent._uids.resort(self)\n")
+DEC_ZIP = "            return zlib.decompress(data, -15)"
+M('C20', 'decompress-capped-silently', CO, DEC_ZIP, "            return zlib.decompressobj(-15).decompress(data, 1 << 24)", 'C20.5')
+M('C20', 'decompress-result-sliced', CO, DEC_ZIP, "            return zlib.decompress(data, -15)[:1 << 24]", 'C20.5')
+M('C20', 'bz2-decompress-capped-silently', CO, "            return bz2.decompress(data)", "            return bz2.BZ2Decompressor().decompress(data, 16777216)", 'C20.5')
+M('C20', 'decompressobj-small-window', CO, DEC_ZIP, "            return zlib.decompressobj(-12).decompress(data)", 'C20.5')
+M('C20', 'zlib-decompressobj-capped', CO, "        if self is CompressionAlgorithm.ZLIB:\n            return zlib.decompress(data)\n", "        if self is CompressionAlgorithm.ZLIB:\n            d = zlib.decompressobj()\n            out = d.decompress(data, 1 << 26)\n            return out\n", 'C20.5')
+T('C20', 'twin-decompressobj-unbounded', CO, DEC_ZIP, "            return zlib.decompressobj(-15).decompress(data)")
+T('C20', 'twin-decompressobj-cap-checked', CO, DEC_ZIP, "            d = zlib.decompressobj(-15)\n            out = d.decompress(data, 1 << 30)\n            if d.unconsumed_tail:\n                raise ValueError('compressed data expands beyond the supported size')\n            return out")
+M('C20', 'onepass-halg-constant', PGP, "        onepass.halg = self.hash_algorithm\n", "        onepass.halg = HashAlgorithm.SHA256\n", 'C20.3')
+M('C20', 'onepass-pubalg-constant', PGP, "        onepass.pubalg = self.key_algorithm\n", "        onepass.pubalg = PubKeyAlgorithm.RSAEncryptOrSign\n", 'C20.3')
+M('C20', 'onepass-signer-from-parent', PGP, "        onepass.signer = self.signer\n        onepass.update_hlen()", "        onepass.signer = self.parent.fingerprint.keyid if self.parent is not None else self.signer\n        onepass.update_hlen()", 'C20.3')
+M('C20', 'ops-writer-type-constant', PK, "        _bytes += bytearray([self.sigtype])\n        _bytes += bytearray([self.halg])", "        _bytes += bytearray([0])\n        _bytes += bytearray([self.halg])", 'C20.6')
+M('C20', 'continuation-two-octet-offset-dropped', TY, "                    dlen = self.bytes_to_int(b[offset:offset + 2])\n                    return (((dlen - (192 << 8)) & 0xFF00) + ((dlen & 0xFF) + 192), 2, False)",
+  "                    return (((fo - 192) << 8) + a[1] + 192, 2, False)", 'C20.7')
+M('C20', 'continuation-five-octet-offset-dropped', TY, "                    return (self.bytes_to_int(b[offset + 1:offset + 5]), 5, False)", "                    return (self.bytes_to_int(b[1:5]), 5, False)", 'C20.7')
+M('C20', 'continuation-one-octet-offset-dropped', TY, "                    return (self.bytes_to_int(a[offset:offset + 1]), 1, False)", "                    return (self.bytes_to_int(a[:1]), 1, False)", 'C20.7')
+M('C20', 'continuation-field-left-in-body', TY, "                    part_len, size, partial = _parse_len(b, total)\n                    del b[total:total + size]\n", "                    part_len, size, partial = _parse_len(b, total)\n                    del b[total:total + 1]\n", 'C20.7')
+M('C20', 'partial-chunk-size-mask', TY, "                    return (1 << (fo & 0x1f), 1, True)", "                    return (1 << (fo & 0x0f), 1, True)", 'C20.7')
+M('C20', 'two-octet-length-threshold', TY, "                elif 224 > fo:  # >= 192 is implied\n                    dlen", "                elif 223 > fo:  # >= 192 is implied\n                    dlen", 'C20.7')
 
 # =============================================================================================== C02: copies, caller aliasing, cleartext canonicalisation (third wave)
 _SD = "            return re.subn(r'[ \\t]+(?=\\r?$)', '', self.message, flags=re.MULTILINE)[0]"
